@@ -1,6 +1,12 @@
 package c19
 
 import (
+	"fmt"
+	"sort"
+	"strings"
+
+	"perkeep.org/pkg/blob"
+	"perkeep.org/pkg/blobserver"
 	"verifharness/hk"
 )
 
@@ -10,4 +16,550 @@ func NewExec() func(words []string) string {
 	return func(ws []string) string { return hk.Guard(func() string { return e.Step(ws) }) }
 }
 
-func Run(r *hk.Run) { r.Note("wip") }
+// ---- one case: ops on the implementation + the property's own oracle after every op ----------------
+
+type kase struct {
+	r        *hk.Run
+	e        *Exec
+	prevRows map[int]bool
+	acks     int
+	work     int // copy / drain / restart ops
+	live     bool
+}
+
+func begin(r *hk.Run, label string) *kase {
+	r.Case(label)
+	return &kase{r: r, e: newExecState(), prevRows: map[int]bool{}}
+}
+
+func has(l []int, x int) bool {
+	i := sort.SearchInts(l, x)
+	return i < len(l) && l[i] == x
+}
+
+// op executes one op line on the real code, records it, and evaluates the safety part of the
+// property statement on the observable state:
+//
+//	(queue durable)  every acknowledged blob is at the destination or has its queue row
+//	(row removal)    a row that disappeared belongs to a blob the destination holds
+//	(bit identical)  the destination holds exactly the uploaded bytes, and only source blobs
+func (k *kase) op(line string) string {
+	ws := strings.Fields(line)
+	out := hk.Guard(func() string { return k.e.Step(ws) })
+	k.r.Op(line, out)
+	if strings.HasPrefix(out, "broken") || out == "panic" || out == "hang" || strings.HasPrefix(out, "timeout") {
+		k.r.Fail("harness-"+strings.SplitN(out, ":", 2)[0], "op "+line+" -> "+out, "an answer", out, k.r.CaseOps())
+		return out
+	}
+	if len(ws) > 0 {
+		switch ws[0] {
+		case "up", "upend", "upbegin":
+			if out == "ack" {
+				k.acks++
+				k.r.Hit("mech:upload-acked-after-hook")
+			}
+			if out == "err" {
+				k.r.Hit("mech:upload-refused:" + ws[0])
+			}
+		case "copy", "cpbegin", "cpend":
+			k.work++
+			if out == "fail" {
+				k.r.Hit("mech:copy-rejected:" + ws[2])
+			}
+			if out == "ok" {
+				k.r.Hit("mech:copy-ok")
+			}
+		case "drain", "restart", "settle":
+			k.work++
+		}
+	}
+	if k.live && (len(ws) == 0 || ws[0] != "settle") {
+		// while the real loop runs concurrently only quiescent states are compared and judged
+		return out
+	}
+	k.judge()
+	return out
+}
+
+func (k *kase) judge() {
+	v := k.e.Observe()
+	ops := k.r.CaseOps()
+	if len(v.BadRows) > 0 || v.Foreign > 0 {
+		k.r.Fail("queue-row-malformed", fmt.Sprintf("bad rows %v, foreign refs %d", v.BadRows, v.Foreign), "rows ref -> size of uploaded blobs", v.String(), ops)
+	}
+	for i := range k.prevRows {
+		if !has(v.Rows, i) {
+			if _, at := v.Dst[i]; !at {
+				k.r.Fail("row-deleted-before-dest-ack", fmt.Sprintf("row of blob %d left the queue, destination does not hold it", i), "row kept", v.String(), ops)
+			} else {
+				k.r.Hit("mech:row-deleted-after-dest-ack")
+			}
+		}
+	}
+	for _, i := range v.Acked {
+		_, at := v.Dst[i]
+		if !at && !has(v.Rows, i) {
+			k.r.Fail("acked-blob-without-row", fmt.Sprintf("upload of blob %d was acknowledged; it is neither at the destination nor in the queue", i), "row present", v.String(), ops)
+		}
+		if !has(v.Src, i) {
+			k.r.Fail("acked-blob-not-in-source", fmt.Sprintf("blob %d", i), "in source", v.String(), ops)
+		}
+	}
+	for i, same := range v.Dst {
+		if !same {
+			k.r.Fail("dest-bytes-differ", fmt.Sprintf("destination bytes of blob %d differ from the uploaded bytes", i), "identical", v.String(), ops)
+		}
+		if !has(v.Src, i) {
+			k.r.Fail("dest-blob-not-in-source", fmt.Sprintf("blob %d", i), "subset of source", v.String(), ops)
+		}
+	}
+	for _, i := range v.Need {
+		if _, at := v.Dst[i]; !at && has(v.Rows, i) {
+			k.r.Hit("mech:row-kept-while-pending")
+		}
+	}
+	k.prevRows = map[int]bool{}
+	for _, i := range v.Rows {
+		k.prevRows[i] = true
+	}
+}
+
+// finish runs the failure-free continuation (restart + drain, or settle in live mode) and evaluates
+// the liveness part of the statement.
+func (k *kase) finish() {
+	before := k.e.Observe()
+	if k.live {
+		k.op("restart")
+		k.op("settle")
+	} else {
+		if out := k.op("restart"); out != "need=0" {
+			k.r.Hit("mech:queue-reloaded-at-start")
+		}
+		k.op("drain ok -")
+		k.op("dump")
+	}
+	v := k.e.Observe()
+	ops := k.r.CaseOps()
+	for _, i := range v.Acked {
+		if _, at := v.Dst[i]; !at {
+			k.r.Fail("acked-not-delivered-after-recovery", fmt.Sprintf("acknowledged blob %d is not at the destination after restart + failure-free drain", i), "delivered", v.String(), ops)
+		}
+	}
+	if len(v.Rows) > 0 || len(v.Need) > 0 {
+		k.r.Fail("pending-left-after-recovery", "rows or needCopy not empty after a failure-free drain", "empty", v.String(), ops)
+	}
+	for _, i := range v.Src {
+		if _, at := v.Dst[i]; !at && !has(v.Acked, i) {
+			// the statement at full strength: every blob received by the source store
+			k.r.Fail("unacked-source-blob-not-delivered-after-restart", fmt.Sprintf("blob %d was stored by the source, its upload was not acknowledged (queue write failed / crashed before the row), and after a restart it is never copied", i), "delivered", v.String(), ops)
+		}
+	}
+	if len(before.Rows) > 0 && len(v.Rows) == 0 {
+		k.r.Hit("mech:pending-at-crash-completed-after-restart")
+	}
+	// the source-minus-destination merge used by full sync / validation, on the final stores
+	k.listMissing(v)
+	if k.acks > 0 && k.work > 0 {
+		k.r.Distinct(strings.Join(ops, ";"))
+	}
+	k.e.Close()
+}
+
+func (k *kase) listMissing(v View) {
+	feed := func(m *mapStore) <-chan blob.SizedRef {
+		ch := make(chan blob.SizedRef, 64)
+		go func() {
+			defer close(ch)
+			for _, br := range m.refs() {
+				b, _ := m.get(br)
+				ch <- blob.SizedRef{Ref: br, Size: uint32(len(b))}
+			}
+		}()
+		return ch
+	}
+	missc := make(chan blob.SizedRef, 64)
+	mism := 0
+	go blobserver.ListMissingDestinationBlobs(missc, func(blob.Ref) { mism++ }, feed(k.e.w.src), feed(k.e.w.dst))
+	var got []int
+	for sb := range missc {
+		if i, ok := k.e.idOf(sb.Ref); ok {
+			got = append(got, i)
+		} else {
+			got = append(got, -1)
+		}
+	}
+	sort.Ints(got)
+	var want []int
+	for _, i := range v.Src {
+		if _, at := v.Dst[i]; !at {
+			want = append(want, i)
+		}
+	}
+	k.r.ImplOnly("list-missing")
+	if fmt.Sprint(got) != fmt.Sprint(want) || mism != 0 {
+		k.r.Fail("list-missing-destination-differs", "ListMissingDestinationBlobs(source, destination)", fmt.Sprint(want), fmt.Sprintf("%v mismatches=%d", got, mism), k.r.CaseOps())
+	}
+	if len(got) > 0 {
+		k.r.Hit("mech:list-missing-nonempty")
+	}
+}
+
+// ---- generators -------------------------------------------------------------------------------------
+
+var upFaults = []string{"ok", "qseterr", "srcerr"}
+var delFaults = []string{"ok", "qdelerr"}
+var poss = []string{"pre", "post"}
+
+func script(r *hk.Run, label string, ops []string) {
+	k := begin(r, label)
+	for _, o := range ops {
+		k.op(o)
+	}
+	k.finish()
+}
+
+// F-C19-1 (fixed): re-upload after a failed queue write was acknowledged without a row.
+var witnessF1 = []string{"up 1 qseterr", "up 1 ok", "restart", "drain ok -", "dump"}
+
+// F-C19-1, interleaving form: second upload acknowledged while the first one's row write is in flight.
+var witnessF1race = []string{"upbegin 1 ok pre", "up 1 ok", "restart", "drain ok -", "dump"}
+
+// F-C19-2 (known): unacknowledged upload, stored by the source, lost for the sync after a restart.
+var witnessF2 = []string{"up 1 qseterr", "restart", "drain ok -", "dump"}
+
+func replay(ops []string) (View, []string) {
+	e := newExecState()
+	defer e.Close()
+	var outs []string
+	for _, o := range ops {
+		outs = append(outs, hk.Guard(func() string { return e.Step(strings.Fields(o)) }))
+	}
+	return e.Observe(), outs
+}
+
+func genWitnesses(r *hk.Run) {
+	script(r, "witness-F1", witnessF1[:2])
+	script(r, "witness-F1-race", witnessF1race[:2])
+	script(r, "witness-F2", witnessF2[:1])
+	script(r, "witness-F2-crash-in-upload", []string{"upbegin 1 ok pre"})
+}
+
+func genFaultMatrix(r *hk.Run) {
+	for _, f := range copyFaults {
+		for _, dq := range delFaults {
+			for _, mode := range []string{"atomic", "pre", "post"} {
+				for _, mid := range []string{"", "up 1 ok", "up 1 qseterr", "restart", "up 2 ok"} {
+					if mode == "atomic" && mid != "" && mid != "restart" {
+						continue
+					}
+					k := begin(r, "fault-matrix "+f+" "+dq+" "+mode+" ["+mid+"]")
+					k.op("up 1 ok")
+					k.op("up 3 ok")
+					if mode == "atomic" {
+						k.op(fmt.Sprintf("copy 1 %s %s", f, dq))
+						if mid != "" {
+							k.op(mid)
+						}
+					} else {
+						out := k.op(fmt.Sprintf("cpbegin 1 %s %s %s", f, dq, mode))
+						k.op("dump")
+						if mid != "" {
+							k.op(mid)
+							k.op("dump")
+						}
+						if out == "parked" {
+							k.op("cpend 1")
+						}
+					}
+					k.op("dump")
+					k.op("copy 1 ok ok")
+					k.op("dump")
+					k.finish()
+				}
+			}
+		}
+	}
+}
+
+func genUploadMatrix(r *hk.Run) {
+	mids := []string{"", "up 1 ok", "up 1 qseterr", "copy 1 ok ok", "copy 1 desterr ok", "restart", "drain ok -", "up 2 ok"}
+	for _, pre := range []string{"", "up 1 ok", "up 1 qseterr"} {
+		for _, q := range upFaults {
+			for _, pos := range poss {
+				for _, mid := range mids {
+					k := begin(r, "upload-matrix ["+pre+"] "+q+" "+pos+" ["+mid+"]")
+					if pre != "" {
+						k.op(pre)
+					}
+					out := k.op(fmt.Sprintf("upbegin 1 %s %s", q, pos))
+					k.op("dump")
+					if mid != "" {
+						k.op(mid)
+						k.op("dump")
+					}
+					if out == "parked" {
+						k.op("upend 1")
+					}
+					k.op("dump")
+					k.finish()
+				}
+			}
+		}
+	}
+}
+
+// the op alphabet of the random and exhaustive generators, over ids 0..n-1
+func randomOp(rd *hk.Rand, n int, parkedU, parkedC map[int]bool) string {
+	i := rd.Intn(n)
+	switch x := rd.Intn(100); {
+	case x < 22:
+		q := "ok"
+		if rd.Chance(30) {
+			q = rd.Pick(upFaults)
+		}
+		return fmt.Sprintf("up %d %s", i, q)
+	case x < 32:
+		q := "ok"
+		if rd.Chance(30) {
+			q = rd.Pick(upFaults)
+		}
+		return fmt.Sprintf("upbegin %d %s %s", i, q, rd.Pick(poss))
+	case x < 42:
+		for j := range parkedU {
+			if rd.Bool() {
+				i = j
+			}
+		}
+		return fmt.Sprintf("upend %d", i)
+	case x < 62:
+		f := "ok"
+		if rd.Chance(50) {
+			f = rd.Pick(copyFaults)
+		}
+		dq := "ok"
+		if rd.Chance(20) {
+			dq = "qdelerr"
+		}
+		return fmt.Sprintf("copy %d %s %s", i, f, dq)
+	case x < 72:
+		f := "ok"
+		if rd.Chance(30) {
+			f = rd.Pick(copyFaults)
+		}
+		dq := "ok"
+		if rd.Chance(20) {
+			dq = "qdelerr"
+		}
+		return fmt.Sprintf("cpbegin %d %s %s %s", i, f, dq, rd.Pick(poss))
+	case x < 82:
+		for j := range parkedC {
+			if rd.Bool() {
+				i = j
+			}
+		}
+		return fmt.Sprintf("cpend %d", i)
+	case x < 88:
+		if rd.Chance(50) {
+			return "drain ok -"
+		}
+		var bad []string
+		for j := 0; j < n; j++ {
+			if rd.Chance(40) {
+				bad = append(bad, fmt.Sprint(j))
+			}
+		}
+		if len(bad) == 0 {
+			bad = []string{"-"}
+		}
+		return fmt.Sprintf("drain %s %s", rd.Pick(copyFaults[1:]), strings.Join(bad, ","))
+	case x < 95:
+		return "restart"
+	default:
+		return "dump"
+	}
+}
+
+func track(op, out string, parkedU, parkedC map[int]bool) {
+	ws := strings.Fields(op)
+	var i int
+	if len(ws) > 1 {
+		fmt.Sscan(ws[1], &i)
+	}
+	switch ws[0] {
+	case "upbegin":
+		if out == "parked" {
+			parkedU[i] = true
+		}
+	case "upend":
+		delete(parkedU, i)
+	case "cpbegin":
+		if out == "parked" {
+			parkedC[i] = true
+		}
+	case "cpend":
+		delete(parkedC, i)
+	case "restart":
+		for j := range parkedU {
+			delete(parkedU, j)
+		}
+		for j := range parkedC {
+			delete(parkedC, j)
+		}
+	}
+}
+
+func genRandom(r *hk.Run, cases, length, ids int) {
+	for c := 0; c < cases; c++ {
+		rd := r.R.Fork()
+		k := begin(r, "random")
+		pu, pc := map[int]bool{}, map[int]bool{}
+		n := 4 + rd.Intn(length)
+		for j := 0; j < n; j++ {
+			o := randomOp(rd, ids, pu, pc)
+			track(o, k.op(o), pu, pc)
+		}
+		k.op("dump")
+		if c == 0 {
+			r.Sample(map[string]any{"kind": "random", "ops": r.CaseOps()})
+		}
+		k.finish()
+	}
+}
+
+// restarts at every step: a random script, then for every prefix the prefix + recovery
+func genCrashEverywhere(r *hk.Run, scripts, length int) {
+	for c := 0; c < scripts; c++ {
+		rd := r.R.Fork()
+		// record a script by running it once
+		k := begin(r, "crash-base")
+		pu, pc := map[int]bool{}, map[int]bool{}
+		var ops []string
+		for j := 0; j < length; j++ {
+			o := randomOp(rd, 3, pu, pc)
+			if o == "restart" || o == "dump" {
+				o = "up 1 ok"
+			}
+			track(o, k.op(o), pu, pc)
+			ops = append(ops, o)
+		}
+		k.finish()
+		for p := 0; p < len(ops); p++ {
+			k := begin(r, fmt.Sprintf("crash-after-%d", p))
+			for _, o := range ops[:p] {
+				k.op(o)
+			}
+			r.Hit("mech:restart-at-every-step")
+			k.finish()
+		}
+	}
+}
+
+var exAlphabet = []string{
+	"up 0 ok", "up 0 qseterr", "upbegin 0 ok pre", "upbegin 0 qseterr post", "upend 0",
+	"copy 0 ok ok", "copy 0 desterr ok", "copy 0 corrupt ok", "cpbegin 0 ok ok pre", "cpbegin 0 ok qdelerr post", "cpend 0",
+	"restart", "up 1 ok", "drain destsize 0",
+}
+
+// every op sequence of the given depth over exAlphabet, each followed by the recovery
+func genExhaustive(r *hk.Run, depth int) {
+	idx := make([]int, depth)
+	for {
+		k := begin(r, "exhaustive")
+		for _, a := range idx {
+			k.op(exAlphabet[a])
+		}
+		k.finish()
+		j := depth - 1
+		for j >= 0 {
+			idx[j]++
+			if idx[j] < len(exAlphabet) {
+				break
+			}
+			idx[j] = 0
+			j--
+		}
+		if j < 0 {
+			return
+		}
+	}
+}
+
+// the real syncLoop goroutine, built through blobserver.CreateHandler("sync", …)
+func genLive(r *hk.Run, cases int) {
+	for c := 0; c < cases; c++ {
+		rd := r.R.Fork()
+		k := begin(r, "live")
+		k.op("live")
+		k.live = true
+		n := 5 + rd.Intn(20)
+		next := 0
+		for j := 0; j < n; j++ {
+			switch x := rd.Intn(100); {
+			case x < 70:
+				i := next
+				if rd.Chance(25) && next > 0 {
+					i = rd.Intn(next)
+				} else {
+					next++
+				}
+				k.op(fmt.Sprintf("up %d ok", i))
+			case x < 85:
+				k.op("restart")
+			default:
+				k.op("settle")
+			}
+		}
+		r.Hit("mech:real-syncLoop-via-CreateHandler")
+		k.finish()
+	}
+}
+
+func genMalformed(r *hk.Run) {
+	k := begin(r, "malformed")
+	for _, o := range []string{"", "up", "up 1", "up x ok", "up 01 ok", "up 1 maybe", "up 12345 ok", "copy 1 ok", "copy 1 nofault ok",
+		"copy 1 ok nodq", "cpbegin 1 ok ok mid", "drain ok", "drain nofault -", "drain ok 1,,2", "drain ok ,", "restart now", "dump all",
+		"upend", "cpend x", "frobnicate", "live", "settle", "upbegin 1 ok", "upbegin 1 ok pre extra", "up 1 ok", "copy 1 ok ok", "dump"} {
+		k.op(o)
+	}
+	k.finish()
+	k = begin(r, "malformed-live")
+	k.op("live")
+	k.live = true
+	for _, o := range []string{"up 1 qseterr", "copy 1 ok ok", "dump", "live", "drain ok -", "up 1 ok", "settle"} {
+		k.op(o)
+	}
+	k.finish()
+}
+
+// Run is the generator + oracle of C19.
+func Run(r *hk.Run) {
+	r.Res.Rule = "cases: (a) witnesses of F-C19-1/2; (b) copy-fault matrix {7 faults} x {queue.Delete ok/err} x {atomic, parked before/after queue.Delete} x {nothing, duplicate upload, failing upload, restart, other upload in between}; (c) upload matrix {nothing, acked, failed earlier upload} x {ok, queue.Set error, source error} x {parked before/after queue.Set} x 8 interleaved ops; (d) every op sequence of depth D (4 quick, 5 thorough) over a 14-op alphabet; (e) random walks over 4 blobs with all ops; (f) random scripts cut (crash + restart) after every prefix; (g) the real syncLoop via blobserver.CreateHandler(\"sync\") with restarts; (h) malformed ops. Every case ends with restart + failure-free drain and the liveness oracle; the safety oracle runs after every op. distinct = distinct op sequences; non-trivial = at least one acknowledged upload and one copy/drain/restart"
+	genWitnesses(r)
+	genFaultMatrix(r)
+	genUploadMatrix(r)
+	if r.Thorough() {
+		genExhaustive(r, 5)
+		genRandom(r, 40000, 80, 4)
+		genCrashEverywhere(r, 400, 40)
+		genLive(r, 60)
+	} else {
+		genExhaustive(r, 4)
+		genRandom(r, 3000, 50, 4)
+		genCrashEverywhere(r, 60, 30)
+		genLive(r, 8)
+	}
+	genMalformed(r)
+
+	// regression probes of the findings
+	v1, _ := replay(witnessF1)
+	_, d1 := v1.Dst[1]
+	r.Probe("F-C19-1", has(v1.Acked, 1) && !d1, "up 1 qseterr; up 1 ok; restart; drain -> "+v1.String())
+	v1r, _ := replay(witnessF1race)
+	_, d1r := v1r.Dst[1]
+	if has(v1r.Acked, 1) && !d1r {
+		r.Probe("F-C19-1", true, "upbegin 1 ok pre; up 1 ok; restart; drain -> "+v1r.String())
+	}
+	v2, _ := replay(witnessF2)
+	_, d2 := v2.Dst[1]
+	r.Probe("F-C19-2", has(v2.Src, 1) && !d2 && len(v2.Rows) == 0, "up 1 qseterr; restart; drain -> "+v2.String())
+}
